@@ -250,16 +250,20 @@ mkinst(struct func *f, int op, int class, struct value *arg0, struct value *arg1
 	return inst;
 }
 
+/* start an unreachable block if the current one already ends in a jump */
+static void
+funcopen(struct func *f)
+{
+	if (f->end->jump.kind)
+		funclabel(f, mkblock("dead"));
+}
+
 static struct value *
 funcinst(struct func *f, int op, int class, struct value *arg0, struct value *arg1)
 {
 	struct inst *inst;
-	struct block *b;
 
-	if (f->end->jump.kind) {
-		b = mkblock("dead");
-		funclabel(f, b);
-	}
+	funcopen(f);
 	inst = mkinst(f, op, class, arg0, arg1);
 	arrayaddptr(&f->end->insts, inst);
 	return &inst->res;
@@ -602,10 +606,11 @@ funcjmp(struct func *f, struct block *l)
 void
 funcjnz(struct func *f, struct value *v, struct type *t, struct block *l1, struct block *l2)
 {
-	struct block *b = f->end;
+	struct block *b;
 
-	if (b->jump.kind)
-		return;
+	/* the source block of a phi must be a predecessor, even in unreachable code */
+	funcopen(f);
+	b = f->end;
 	if (t) {
 		assert(t->prop & PROPSCALAR);
 		/*
@@ -823,6 +828,7 @@ funcexpr(struct func *f, struct expr *e)
 			funclabel(f, b[0]);
 			r = funcexpr(f, e->u.binary.r);
 			b[1]->phi.val[1] = convert(f, &typebool, e->u.binary.r->type, r);
+			funcopen(f);
 			b[1]->phi.blk[1] = f->end;
 			funclabel(f, b[1]);
 			functemp(f, &b[1]->phi.res);
@@ -914,11 +920,13 @@ funcexpr(struct func *f, struct expr *e)
 
 		funclabel(f, b[0]);
 		b[2]->phi.val[0] = funcexpr(f, e->u.cond.t);
+		funcopen(f);
 		b[2]->phi.blk[0] = f->end;
 		funcjmp(f, b[2]);
 
 		funclabel(f, b[1]);
 		b[2]->phi.val[1] = funcexpr(f, e->u.cond.f);
+		funcopen(f);
 		b[2]->phi.blk[1] = f->end;
 
 		funclabel(f, b[2]);
